@@ -100,3 +100,91 @@ Example u_surplus : get_url_params (s2b "/dc=a%3Fb") (q "cn?base?(a=b)?x=1?y=2")
 (* F19: the attribute list is not percent-decoded *)
 Example u_attrs_not_decoded : get_url_params (s2b "/") (q "*,%2B") =
   UOk {| p_base := []; p_attrs := [s2b "*"; s2b "%2B"]; p_scope := Subtree; p_filter := s2b "(objectClass=*)"; p_exts := [] |}. Proof. vm_compute. reflexivity. Qed.
+
+(* ---------- C20 round trip: format (RFC 4516, everything outside the unreserved set percent-encoded), then extract ---------- *)
+From S Require Import FilterSpec Escape Dn.
+Local Open Scope list_scope.
+Definition unreserved (c : byte) : bool := is_alpha c || is_digit c || beq c "-"%byte || beq c "."%byte || beq c "_"%byte || beq c "~"%byte.
+Definition penc (s : bytes) : bytes := flat_map (fun c => if unreserved c then [c] else ["%"%byte; xdigit (bN c / 16); xdigit (bN c mod 16)]) s.
+
+Lemma unreserved_facts c : unreserved c = true -> beq c "%"%byte = false /\ beq c "?"%byte = false /\ beq c ","%byte = false.
+Proof. destruct c; vm_compute; intros; repeat split; congruence. Qed.
+Lemma xdigit_facts c : beq (xdigit (bN c / 16)) "?"%byte = false /\ beq (xdigit (bN c mod 16)) "?"%byte = false /\
+                       beq (xdigit (bN c / 16)) ","%byte = false /\ beq (xdigit (bN c mod 16)) ","%byte = false.
+Proof. destruct c; vm_compute; repeat split. Qed.
+
+Lemma pct_plain f c X : beq c "%"%byte = false -> pct_decode (S f) (c :: X) = c :: pct_decode f X.
+Proof. intros H. destruct X as [|h1 [|h2 r]]; cbn [pct_decode]; [reflexivity|reflexivity|now rewrite H]. Qed.
+Lemma penc_cons c s : penc (c :: s) = (if unreserved c then [c] else ["%"%byte; xdigit (bN c / 16); xdigit (bN c mod 16)]) ++ penc s.
+Proof. reflexivity. Qed.
+Lemma pct_decode_penc s : forall f, (List.length (penc s) <= f)%nat -> pct_decode f (penc s) = s.
+Proof. induction s as [|c s IH]; intros f Hf; [destruct f; reflexivity|]. rewrite penc_cons in *. destruct (unreserved c) eqn:Eu.
+  - cbn [app List.length] in *. destruct f as [|f]; [lia|]. destruct (unreserved_facts c Eu) as (Hp & _ & _).
+    rewrite (pct_plain f c _ Hp). f_equal. apply IH. lia.
+  - cbn [app List.length] in *. destruct f as [|f]; [lia|]. cbn [pct_decode]. change (beq "%" "%")%byte with true.
+    destruct (hexpair_back c) as (H1 & H2 & H3). rewrite H1, H2. cbn [andb]. rewrite H3. f_equal. apply IH. lia. Qed.
+Theorem pdec_penc s : pdec (penc s) = s.
+Proof. unfold pdec. now apply pct_decode_penc. Qed.
+
+Definition no_byte (c : byte) (s : bytes) : Prop := forallb (fun x => negb (beq x c)) s = true.
+Lemma penc_no q s : (q = "?"%byte \/ q = ","%byte) -> no_byte q (penc s).
+Proof. intros Hq. unfold no_byte. induction s as [|c s IH]; [reflexivity|]. rewrite penc_cons, forallb_app, IH, andb_true_r.
+  destruct (unreserved c) eqn:Eu.
+  - destruct (unreserved_facts c Eu) as (_ & H1 & H2). cbn. destruct Hq as [-> | ->]; now rewrite ?H1, ?H2.
+  - destruct (xdigit_facts c) as (A1 & A2 & A3 & A4). cbn. destruct Hq as [-> | ->]; cbn; now rewrite ?A1, ?A2, ?A3, ?A4. Qed.
+
+Lemma splitn_last c s cur : splitn_on 1 c s cur = [cur ++ s]. Proof. destruct s; reflexivity. Qed.
+Lemma splitn_field n c a rest cur : no_byte c a -> splitn_on (S (S n)) c (a ++ c :: rest) cur = (cur ++ a) :: splitn_on (S n) c rest [].
+Proof. unfold no_byte. revert cur. induction a as [|x a IH]; intros cur H.
+  - cbn [app splitn_on]. rewrite beq_refl. now rewrite app_nil_r.
+  - cbn in H. apply andb_true_iff in H as [Hx H]. apply negb_true_iff in Hx. cbn [app splitn_on]. rewrite Hx.
+    rewrite IH by assumption. now rewrite <- app_assoc. Qed.
+Lemma splitn_end n c a cur : no_byte c a -> splitn_on (S (S n)) c a cur = [cur ++ a].
+Proof. unfold no_byte. revert cur. induction a as [|x a IH]; intros cur H.
+  - cbn. now rewrite app_nil_r.
+  - cbn in H. apply andb_true_iff in H as [Hx H]. apply negb_true_iff in Hx. cbn [splitn_on]. rewrite Hx. rewrite IH by assumption. now rewrite <- app_assoc. Qed.
+Lemma split_single c a cur : no_byte c a -> split_on c a cur = [cur ++ a].
+Proof. unfold no_byte. revert cur. induction a as [|x a IH]; intros cur H; cbn; [now rewrite app_nil_r|].
+  cbn in H. apply andb_true_iff in H as [Hx H]. apply negb_true_iff in Hx. rewrite Hx, IH by assumption. now rewrite <- app_assoc. Qed.
+Lemma split_cons c a rest cur : no_byte c a -> split_on c (a ++ c :: rest) cur = (cur ++ a) :: split_on c rest [].
+Proof. unfold no_byte. revert cur. induction a as [|x a IH]; intros cur H.
+  - cbn [app split_on]. rewrite beq_refl. now rewrite app_nil_r.
+  - cbn in H. apply andb_true_iff in H as [Hx H]. apply negb_true_iff in Hx. cbn [app split_on]. rewrite Hx, IH by assumption. now rewrite <- app_assoc. Qed.
+
+Fixpoint join (c : byte) (l : list bytes) : bytes := match l with [] => [] | [x] => x | x :: r => x ++ c :: join c r end.
+Lemma split_join c l : l <> [] -> Forall (no_byte c) l -> split_on c (join c l) [] = l.
+Proof. induction l as [|x l IH]; intros Hne Hl; [congruence|]. inversion Hl as [|? ? Hx Hl']; subst. destruct l as [|y l].
+  - cbn [join]. now rewrite split_single.
+  - cbn [join]. rewrite split_cons by assumption. cbn [app]. f_equal. apply IH; [discriminate|assumption]. Qed.
+
+Definition scope_word (sc : scope) : bytes := match sc with Base => s2b "base" | OneLevel => s2b "one" | Subtree => s2b "sub" end.
+(* attribute descriptions need no encoding; what matters here is that they contain neither ',' nor '?' and are not empty *)
+Definition attr_ok (a : bytes) : Prop := a <> [] /\ no_byte ","%byte a /\ no_byte "?"%byte a.
+
+Lemma no_byte_join q c l : Forall (no_byte q) l -> beq c q = false -> no_byte q (join c l).
+Proof. unfold no_byte. induction 1 as [|x l Hx _ IH]; intros Hc; [reflexivity|]. destruct l as [|y l]; cbn [join]; [exact Hx|].
+  rewrite forallb_app, Hx. cbn. rewrite Hc. cbn. now apply IH. Qed.
+
+Theorem c20_roundtrip base attrs sc filt :
+  Utf8.valid base = true -> Utf8.valid filt = true -> filt <> [] -> attrs <> [] -> Forall attr_ok attrs ->
+  get_url_params ("/"%byte :: penc base) (Some (join ","%byte attrs ++ "?"%byte :: scope_word sc ++ "?"%byte :: penc filt)) =
+  UOk {| p_base := base; p_attrs := attrs; p_scope := sc; p_filter := filt; p_exts := [] |}.
+Proof.
+  intros Hb Hf Hfn Han Hat. unfold get_url_params. cbn [beq Byte.eqb]. change (beq "/" "/")%byte with true. cbn match.
+  rewrite pdec_penc, Hb. cbn [negb].
+  assert (Hq1 : no_byte "?"%byte (join ","%byte attrs)) by (apply no_byte_join; [eapply Forall_impl; [|exact Hat]; intros a (_ & _ & H); exact H|reflexivity]).
+  assert (Hq2 : no_byte "?"%byte (scope_word sc)) by (destruct sc; reflexivity).
+  rewrite splitn_field by exact Hq1. rewrite splitn_field by exact Hq2. rewrite splitn_end by (apply penc_no; now left).
+  cbn [app nth_error].
+  assert (Hj : join ","%byte attrs <> []).
+  { destruct attrs as [|a l]; [congruence|]. inversion Hat as [|? ? (Hne & _) _]; subst. destruct l; cbn [join]; [exact Hne|]. destruct a; [congruence|discriminate]. }
+  destruct (join ","%byte attrs) as [|j0 jt] eqn:Ej; [congruence|]. rewrite <- Ej.
+  rewrite split_join; [|assumption|eapply Forall_impl; [|exact Hat]; intros a (_ & H & _); exact H].
+  assert (Hs : exists w0 wt, scope_word sc = w0 :: wt) by (destruct sc; eexists; eexists; reflexivity). destruct Hs as (w0 & wt & Ew). rewrite Ew, <- Ew.
+  assert (Hsc : (if beqs (scope_word sc) (s2b "base") then UOk Base else if beqs (scope_word sc) (s2b "one") then UOk OneLevel
+                 else if beqs (scope_word sc) (s2b "sub") then UOk Subtree else UErr EScope) = UOk sc) by (destruct sc; reflexivity).
+  rewrite Hsc.
+  assert (Hpf : penc filt <> []) by (destruct filt as [|c r]; [congruence|]; cbn; destruct (unreserved c); discriminate).
+  destruct (penc filt) as [|p0 pt] eqn:Ep; [congruence|]. rewrite <- Ep. rewrite pdec_penc, Hf. cbn [negb]. reflexivity.
+Qed.
+Print Assumptions c20_roundtrip.
